@@ -12,6 +12,8 @@ R == Path("r")
 Q(kc, vals) == QueryOp("c1", T1, NoIndex, kc, NoFilter, <<>>, vals, TRUE)
 QA(kc, names, vals) == QueryOp("c1", T1, NoIndex, kc, NoFilter, names, vals, TRUE)
 QG(kc, vals) == QueryOp("c1", T1, Index("gsx"), kc, NoFilter, <<>>, vals, TRUE)
+QH(kc, vals) == QueryOp("c1", T1, Index("gix"), kc, NoFilter, <<>>, vals, TRUE)      \* gix has a partition key only
+GP == [AB EXCEPT ![":a"] = S1(112)]
 Valid == {
   Q(Cmp("=", H, Val(":a")), HV),
   Q(And(Cmp("=", H, Val(":a")), Cmp("=", R, Val(":b"))), AB), Q(And(Cmp("=", H, Val(":a")), Cmp("<", R, Val(":b"))), AB),
@@ -19,6 +21,7 @@ Valid == {
   Q(And(Cmp("=", H, Val(":a")), Between(R, Val(":b"), Val(":c"))), ABC),
   Q(And(Cmp("=", H, Val(":a")), Fn("begins_with", <<R, Val(":b")>>)), AB),
   QA(And(Cmp("=", PathA("#h"), Val(":a")), Cmp(">", PathA("#r"), Val(":b"))), [n \in {"#h", "#r"} |-> IF n = "#h" THEN "h" ELSE "r"], AB),
+  QH(Cmp("=", Path("g"), Val(":a")), One(":a", S1(112))),
   QG(Cmp("=", Path("g"), Val(":a")), One(":a", S1(112))), QG(And(Cmp("=", Path("g"), Val(":a")), Cmp("=", Path("s"), Val(":b"))), [AB EXCEPT ![":a"] = S1(112)])
 }
 Invalid == {
@@ -37,6 +40,9 @@ Invalid == {
   Q(Between(H, Val(":a"), Val(":b")), AB),
   Q(Fn("begins_with", <<H, Val(":a")>>), HV),
   Q(Cmp("=", H, R), <<>>),                                                                     \* attribute = attribute
+  QH(And(Cmp("=", Path("g"), Val(":a")), Cmp("=", R, Val(":b"))), GP),                         \* an index without sort key: the table's sort key,
+  QH(And(Cmp("=", Path("g"), Val(":a")), Cmp(">", Path("s"), Val(":b"))), GP),                 \*   another index's sort key,
+  QH(And(Cmp("=", Path("g"), Val(":a")), Cmp("=", H, Val(":b"))), [GP EXCEPT ![":b"] = S1(97)]),   \* the table's partition key
   QG(Cmp("=", H, Val(":a")), HV),                                                              \* table key on an index
   QG(And(Cmp("=", Path("g"), Val(":a")), Cmp("=", R, Val(":b"))), [AB EXCEPT ![":a"] = S1(112)])
 }
@@ -52,7 +58,7 @@ T2 == "tbl2"
 Req2(t, x) == [t |-> t, put |-> [some |-> TRUE, i |-> x], del |-> [some |-> FALSE, k |-> <<>>]]
 \* the 25-request limit counts the requests of ALL tables of the call
 Spread == { BW([i \in 1..(2 * n) |-> Req2(IF i <= n THEN T1 ELSE T2, KeyN(i))]) : n \in {12, 13} }
-SetupDef == << AddTable("c1", T1, "h", "r"), AddTable("c1", T2, "h", "r"), AddIndex("c1", T1, "gsx", "g", "s"),
+SetupDef == << AddTable("c1", T1, "h", "r"), AddTable("c1", T2, "h", "r"), AddIndex("c1", T1, "gsx", "g", "s"), AddIndex("c1", T1, "gix", "g", ""),
                Put(T1, K(97, 49)), Put(T1, K(97, 50)), Put(T1, K(98, 49)) >>
 MenuDef == SetToSeq(Valid) \o SetToSeq(Invalid) \o SetToSeq(Batches) \o SetToSeq(Spread)
 BoundDef(d) == Cardinality(d["c1"].tables[T1].items) <= 3 /\ Cardinality(d["c1"].tables[T2].items) = 0
